@@ -234,6 +234,9 @@ def run(tier: str) -> int:
                 for name in mc.irun(1):
                     for _ in name:
                         pass
+                if g.scripts.get("choice"):
+                    rep.error(f"{driver}: the schedule could not be imposed through the simulation's generator (scripted choices not consumed)")
+                    g.scripts.clear()
                 for (hn, hv), t in zip(mc.move_history, seg):
                     hist.append((str(hn), "none" if hv is None else ("acc" if hv else "rej")))
                 for t in seg:
